@@ -163,7 +163,7 @@ func (r *Raft) onAppendEntriesRequest(req *appendReq, c *conn) (rpcResult, error
 	r.setLeader(req.src)
 
 	// reply false if log at req.prevLogIndex does not match
-	if req.prevLogIndex > r.snaps.index {
+	if req.prevLogIndex > r.snaps.latestIndex() {
 		if req.prevLogIndex > r.lastLogIndex {
 			return drain(prevEntryNotFound, nil)
 		}
@@ -217,7 +217,7 @@ func (r *Raft) onAppendEntriesRequest(req *appendReq, c *conn) (rpcResult, error
 		}
 		prevTerm := term
 		index, term = ne.index, ne.term
-		if ne.index <= r.snaps.index {
+		if ne.index <= r.snaps.latestIndex() {
 			continue
 		}
 		if ne.index <= r.lastLogIndex {
@@ -337,7 +337,7 @@ func (r *Raft) onInstallSnapRequest(req *installSnapReq, c *conn) (rpcResult, er
 
 		// restore fsm from this snapshot
 		r.fsm.ch <- fsmRestoreReq{r.fsmRestoredCh}
-		r.commitIndex = r.snaps.index
+		r.commitIndex = r.snaps.latestIndex()
 
 		// load snapshot config as cluster configuration
 		r.changeConfig(meta.config)
